@@ -303,8 +303,15 @@ class Function(Value):
         )
 
     def to_model(self) -> model.Term:
-        module = self.body.to_model()
-        return model.Func(module.root)
+        from hugr import ops
+        from hugr.model.export import ModelExport
+
+        if isinstance(self.body.root_op(), ops.Module):
+            return model.Func(self.body.to_model().root)
+        # the body of a function value is a dataflow graph (hugr-core accepts
+        # nothing else): it is exported as the dataflow region of its root
+        export = ModelExport(self.body)
+        return model.Func(export.export_region_dfg(self.body.root))
 
 
 @dataclass
